@@ -2,6 +2,7 @@ package eng
 
 import (
 	"fmt"
+	"go/constant"
 	"go/token"
 
 	"golang.org/x/tools/go/ssa"
@@ -212,6 +213,9 @@ func extract(v ssa.Value, isN func(ssa.Value) bool, d int) (*Expr, error) {
 	if isN(v) {
 		return N(), nil
 	}
+	if rv := ir.Resolve(v); rv != v {
+		return extract(rv, isN, d+1)
+	}
 	switch x := v.(type) {
 	case *ssa.Const:
 		if k, ok := ir.ConstInt(x); ok {
@@ -248,6 +252,37 @@ func extract(v ssa.Value, isN func(ssa.Value) bool, d int) (*Expr, error) {
 		}
 		return &Expr{Op: op, L: l, R: r}, nil
 	}
+	// a module helper that computes the number (`quorum(n, legacy)`): its parameters stand for the call's
+	// arguments, branches on a parameter bound to a boolean constant are decided, and every return that
+	// remains feasible must compute the same tree
+	if cl, isCall := v.(*ssa.Call); isCall {
+		h := cl.Common().StaticCallee()
+		if h != nil && len(h.Blocks) > 0 && len(h.Blocks) <= 40 && ir.InModule(h) && h.Signature.Results().Len() == 1 {
+			unbind := ir.BindParams(h, cl.Common().Args)
+			defer unbind()
+			r := ReachUnderBoundConsts(h)
+			var res *Expr
+			for _, b := range h.Blocks {
+				ret, isRet := b.Instrs[len(b.Instrs)-1].(*ssa.Return)
+				if !isRet || len(ret.Results) != 1 || !r.Instr(ret) {
+					continue
+				}
+				for _, leaf := range PhiLeaves(r, ret.Results[0]) {
+					e, err := extract(leaf, isN, d+1)
+					if err != nil {
+						return nil, err
+					}
+					if res != nil && res.String() != e.String() {
+						return nil, fmt.Errorf("helper %s returns different trees (%s, %s)", h.Name(), res, e)
+					}
+					res = e
+				}
+			}
+			if res != nil {
+				return res, nil
+			}
+		}
+	}
 	return nil, fmt.Errorf("not an arithmetic tree over N: %s (%T)", v.String(), v)
 }
 
@@ -272,3 +307,22 @@ func FormulaLegacy() *Expr     { return Sub(N(), Div(Mul(N(), K(6)), 7)) }  // N
 func FormulaCeil2N3() *Expr    { return Div(Add(Mul(K(2), N()), K(2)), 3) } // ceil(2N/3)
 func FormulaCeilN3() *Expr     { return Div(Add(N(), K(2)), 3) }            // ceil(N/3)
 func FormulaFloor2N3p1() *Expr { return Add(Div(Mul(K(2), N()), 3), K(1)) } // floor(2N/3)+1
+
+// ReachUnderBoundConsts: reachability in helper h from its entry with every branch on a parameter that is
+// currently bound (ir.BindParams) to a boolean constant decided.
+func ReachUnderBoundConsts(h *ssa.Function) *ir.Reach {
+	r := ir.NewReach(h)
+	for _, cd := range ir.Conds(h) {
+		k, isK := ir.Resolve(cd.V).(*ssa.Const)
+		if !isK || k.Value == nil || k.Value.Kind() != constant.Bool {
+			continue
+		}
+		if constant.BoolVal(k.Value) {
+			r.Cut[ir.Edge{From: cd.If.Block(), Idx: cd.FalseIdx()}] = true
+		} else {
+			r.Cut[ir.Edge{From: cd.If.Block(), Idx: cd.TrueIdx()}] = true
+		}
+	}
+	r.Run(nil)
+	return r
+}
